@@ -137,6 +137,8 @@ class Engine:
         self.lenf = z3.Function("len", U, z3.IntSort())
         self.unwind = 64
         self.max_depth = 60
+        self.model = None
+        self.keccak(b"")          # registers keccak(b'') == BLANK_HASH: every other pre-image shape then hashes to something else (shape tags)
 
     # ---- symbolic inputs ---------------------------------------------------------------
     def in_bv(self, name, n):
@@ -225,7 +227,6 @@ class Engine:
             self.solver.add(self.lenf(t) == len(b))
             self.const_atoms[b] = t
             self.model = None
-            if b == BLANK_HASH_BYTES: self.solver.add(self.tagfn()(t) == -1)
         return self.const_atoms[b]
 
     def chunk_term(self, c):
@@ -256,6 +257,7 @@ class Engine:
         r = SBytes.__new__(SBytes); r.ch = tuple(out); return r
 
     def keccak(self, data):
+        concrete_pre = bytes(data) if isinstance(data, (bytes, bytearray)) else None
         sb = self.canon(as_sbytes(data))
         shape = tuple(l for (_, l) in sb.shape())
         if shape not in self.hfuns:
@@ -280,6 +282,11 @@ class Engine:
         self.hash_axioms += 1 + len(args)
         self.stats["keccak"] += 1
         self.hash_apps.append((r, sb))
+        if concrete_pre is not None and len(concrete_pre) <= 1:
+            # known image: the digest of the empty string / of a single byte is identified with the constant of the REAL digest,
+            # so that constants of the code under test (BLANK_HASH, BLANK_NODE_HASH = keccak(rlp(b""))) compare truthfully
+            from eth_hash.auto import keccak as real_keccak
+            self.solver.add(r == self.const_atom(real_keccak(concrete_pre)))
         return SBytes([("a", 32, r)])
 
     def rank(self, t):
